@@ -51,7 +51,19 @@ class int(metaclass=_IntMeta):  # noqa: A001
     pass
 
 
+PRINTED = []
+
+
 def print(*a, **k):  # noqa: A001
+    """output is captured (not shown): contracts about what is printed read PRINTED"""
+    sep = k.get('sep', ' ')
+    end = k.get('end', '\n')
+    try:
+        PRINTED.append(sep.join(_bi.str(x) for x in a) + end)
+    except Exception:
+        PRINTED.append('<unprintable>')
+    if _bi.len(PRINTED) > 20000:
+        del PRINTED[:10000]
     return None
 
 
